@@ -338,7 +338,11 @@ for n, h, c, f in _c10:
     ob("C10.%s.cap%d" % (n, _cap), _pp, "chess-movegen", "iter::kani_verif_c10::cap%d::" % _cap + h, kind="bounded", bound="iterator with <= %d entries (all 64-bit destination sets, masks, indices, cursor states)" % _cap, flags="full", timeout=1800, mem_gb=5, functions=f, contract=c)
     if n == "len":
         ob("C10.len.cap6", ["C10"], "chess-movegen", "iter::kani_verif_c10::cap6::" + h, kind="bounded", bound="iterator with <= 6 entries", tier="thorough", flags="full", timeout=3600, mem_gb=5, functions=f, contract=c)
-    ob("C10." + n, _pp, "chess-movegen", "iter::kani_verif_c10::cap18::" + h, kind="complete", tier="thorough", flags="full", timeout=14400, mem_gb=12, functions=f, contract=c + " — up to the real capacity of 18 entries")
+    if n in ("next", "set_mask"):
+        # measured to finish at the real capacity: next 901 s, set_mask 4322 s; the other operations were not measured
+        # at 18 entries within this session and are therefore not registered (an obligation that times out would make
+        # the thorough command exit 2)
+        ob("C10." + n, _pp, "chess-movegen", "iter::kani_verif_c10::cap18::" + h, kind="complete", tier="thorough", flags="full", timeout=14400, mem_gb=12, functions=f, contract=c + " — up to the real capacity of 18 entries")
 ob("C10.ctor", ["C10"], "chess-movegen", "iter::kani_verif_c10::c10_ctor", kind="complete", flags="full", timeout=1800, mem_gb=4,
    functions=["Board::legals", "Board::legals_masked (wrapping of the entry list)"],
    contract="spec-level lemma at the real capacity 18: an entry list in which every entry is non-empty and inside the mask (the last one possibly carrying unmasked castling destinations — C01 well_shaped clauses) wrapped with index 0 and a rested cursor satisfies wf, and view == pending restricted to the mask")
@@ -350,8 +354,8 @@ ob("C10.K2.witness", "C10", "chess-movegen", "iter::kani_verif_c10::c10_k2_witne
    contract="open known finding K2, concrete witness: set_mask while a promotion destination is partly expanded — must still be refuted")
 PROPERTY_META["C10"] = dict(
     level="model_checking",
-    level_note="quick tier: bounded to iterators of <= 6 entries (every entry/mask/index/cursor value); thorough tier: the real capacity 18 (complete, hours of solver time); covering-mask and staging statements by lemma; two open known findings carved out",
-    explanation="QUICK TIER IS BOUNDED (<= 6 entries); the thorough tier runs the same contracts at the real capacity 18. Contracts on every MoveGen operation over an ARBITRARY iterator value (symbolic entries, symbolic mask, index and promotion cursor) under the structural invariant wf that construction and every operation establish (wf preservation is part of each postcondition); membership of a nondeterministic query move gives set-extensional equality of view/pending. Loops bounded by the capacity 18 with unwinding assertions. 'Every move exactly once under successive covering masks' and the engine staging (remove_move; set_mask(captures); drain; set_mask(all); drain) are lemmas over these contracts (not machine-checked). Two genuine defects are recorded as open known findings with narrow carve-outs (K1: remove_move ignores the promotion field; K2: set_mask/remove/remove_move while a promotion destination is partly expanded).",
+    level_note="quick tier: bounded to iterators of <= 6 entries (every entry/mask/index/cursor value); thorough tier: next and set_mask at the real capacity 18 (complete; 15 and 72 min), len at 6 entries; covering-mask and staging statements by lemma; two open known findings carved out",
+    explanation="QUICK TIER IS BOUNDED (<= 6 entries; len <= 3); the thorough tier runs next and set_mask at the real capacity 18 and len at 6 entries. Contracts on every MoveGen operation over an ARBITRARY iterator value (symbolic entries, symbolic mask, index and promotion cursor) under the structural invariant wf that construction and every operation establish (wf preservation is part of each postcondition); membership of a nondeterministic query move gives set-extensional equality of view/pending. Loops bounded by the capacity 18 with unwinding assertions. 'Every move exactly once under successive covering masks' and the engine staging (remove_move; set_mask(captures); drain; set_mask(all); drain) are lemmas over these contracts (not machine-checked). Two genuine defects are recorded as open known findings with narrow carve-outs (K1: remove_move ignores the promotion field; K2: set_mask/remove/remove_move while a promotion destination is partly expanded).",
     assumptions=["generator establishes wf + 'entries of one source square have disjoint destinations' (C01 obligations)",
                  "covering-masks and engine-staging statements follow from the per-operation contracts by the stated lemma (DESIGN section 5 C10), not machine-checked",
                  "carve-outs of open known findings K1, K2 (known_findings.json)"],
